@@ -33,6 +33,11 @@ class ulist(list):
     >>> assert ulist([1,3,2,1]) | 4 == [1,3,2,4]
     >>> assert ulist([1,3,2,1]) | [1,3,4] == [1,3,2,4]
 
+    :Example: the in-place list operations keep the members unique too
+    -------------------------------------------------------------------
+    >>> u = ulist([1,3,2]); u += [4,1,5]; u.append(3)
+    >>> assert u == [1,3,2,4,5]
+
     """
     def __init__(self, *args, unique = False):
         if unique:
@@ -40,6 +45,39 @@ class ulist(list):
         else:
             orig = list(*args)
             super(ulist, self).__init__([v for _, v in sorted([(orig.index(u), u) for u in set(orig)])])
+
+    def _keep_unique(self):
+        """
+        restores uniqueness after an in-place list operation, keeping first occurrences
+        """
+        if len(set(self)) < len(self):
+            super(ulist, self).__init__(type(self)(list(self)))
+        return self
+
+    def append(self, value):
+        if value not in self:
+            super(ulist, self).append(value)
+
+    def extend(self, values):
+        super(ulist, self).extend(values)
+        self._keep_unique()
+
+    def insert(self, index, value):
+        super(ulist, self).insert(index, value)
+        self._keep_unique()
+
+    def __setitem__(self, index, value):
+        super(ulist, self).__setitem__(index, value)
+        self._keep_unique()
+
+    def __iadd__(self, other):
+        super(ulist, self).__iadd__(other)
+        return self._keep_unique()
+
+    def __imul__(self, n):
+        if n < 1:
+            self.clear()
+        return self
 
     def __add__(self, other):
         if is_list(other):
